@@ -2,9 +2,13 @@
   SymmModel.Gen.TieRand — translation tie (task R1) for `utils.get_u1_charges(ncharge)`:
   the generated definition (range, in-place stable sort with the key `(abs(x), -x)`, prefix) equals the
   model's `u1Charges` (Model/Rand.lean) for every natural `ncharge`.
-  `get_u1u1_charges` (`int(ncharge ** 0.5)`: float), `choose_duals` (a parameter that is a str, None, a bool or a
-  sequence) and the size formulas inside `rand_*_index` (not separate functions; they read the numpy
-  Generator) are outside the translated subset — see the report of harness/translate.py.
+  (S3) `get_u1u1_charges` = `u1u1Charges` — `int(ncharge ** 0.5)` is the DECLARED `pyIsqrtFloat` (= `Nat.sqrt`; that the
+  float computation agrees is an assumption recorded by the translator, as it is in Model/Rand.lean) — and
+  `choose_duals` = `chooseDuals`, its sum-typed parameter `duals` being a `PyArg (Option Bool)` (declared in
+  translate.py; "equal" ↦ `.str "equal"`, None ↦ `.none`, True/False ↦ `.bool b`, a sequence ↦ `.seq l`), its
+  `raise ValueError` the error `PyExc.raised "ValueError"`.
+  The size formulas inside `rand_*_index` (not separate functions; they read the numpy Generator) are outside the
+  translated subset.
   Not imported by SymmModel.lean; build with `lake build SymmModel.Gen.Tie`.
 -/
 import SymmModel.Gen.PyLemmas
@@ -65,5 +69,76 @@ theorem get_u1_charges_eq (n : Nat) : get_u1_charges (Int.ofNat n) = u1Charges n
 
 example : get_u1_charges 5 = [0, 1, -1, 2, -2] := by decide
 example : get_u1_charges 4 = [0, 1, -1, 2] := by decide
+
+/-! ### (S3) `get_u1u1_charges` -/
+
+theorem int_sq (x : Int) : x ^ (2 : Nat) = x * x := by
+  rw [Int.pow_succ, Int.pow_succ, Int.pow_zero, Int.one_mul]
+
+theorem u1u1_key (x y : Int × Int) :
+    pyLexLt ((x.1 ^ (2 : Nat)) + (x.2 ^ (2 : Nat)), (-x.1) - x.2) ((y.1 ^ (2 : Nat)) + (y.2 ^ (2 : Nat)), (-y.1) - y.2)
+      = u1u1KeyLt x y := by
+  unfold pyLexLt u1u1KeyLt
+  simp only [int_sq]
+
+/-- `get_u1u1_charges(ncharge)` as generated = the model's `u1u1Charges`, for every natural `ncharge` (with
+    `int(ncharge ** 0.5)` read as the declared integer square root) -/
+theorem get_u1u1_charges_eq (n : Nat) : get_u1u1_charges (Int.ofNat n) = u1u1Charges n := by
+  unfold get_u1u1_charges u1u1Charges
+  simp only [pyRange2_eq_intRange]
+  rw [foldl_append_item _ (fun st x => by rcases x with ⟨i, j⟩; rfl), List.nil_append,
+    pySortedByLex_eq _ u1u1KeyLt u1u1_key, pySlice_take_ofNat]
+  rfl
+
+/- (`Nat.sqrt` is defined by well-founded recursion and does not reduce: its value is supplied) -/
+example (h : pyIsqrtFloat 5 = 2) : get_u1u1_charges 5 = [(0, 0), (0, 1), (1, 0), (-1, 0), (0, -1)] := by
+  unfold get_u1u1_charges
+  rw [h]
+  decide
+
+/-! ### (S3) `choose_duals` -/
+
+/-- the model's `duals` argument as the declared sum type of the translation -/
+def dualsArg : DualsArg → PyArg (Option Bool)
+  | .equal => .str "equal"
+  | .none => .none
+  | .all b => .bool b
+  | .seq l => .seq l
+
+/-- the model's outcome in the vocabulary of the translation (`chooseDuals` only throws `Err.value`) -/
+def excOfErr {α : Type} : Except Err α → Except PyExc α
+  | .ok x => .ok x
+  | .error _ => .error (.raised "ValueError")
+
+/-- `choose_duals(duals, ndim)` as generated = the model's `chooseDuals`, every alternative of `duals`, every
+    natural `ndim`, including the error point -/
+theorem choose_duals_eq (a : DualsArg) (ndim : Nat) :
+    choose_duals (dualsArg a) (Int.ofNat ndim) = excOfErr (chooseDuals a ndim) := by
+  cases a with
+  | equal =>
+    have h : PyArg.isStr (PyArg.str "equal" : PyArg (Option Bool)) "equal" = true := by decide
+    unfold choose_duals chooseDuals dualsArg
+    simp only [h, if_true, pyRange_ofNat, fdiv_two, List.map_map, excOfErr, pure, Except.pure]
+    congr 1
+    apply List.map_congr_left
+    intro i _
+    simp only [Function.comp, Int.ofNat_eq_natCast, Option.some.injEq, decide_eq_decide]
+    omega
+  | none =>
+    unfold choose_duals chooseDuals dualsArg
+    simp [PyArg.isStr, PyArg.isNone, PyArg.scalar, pyRepeat, excOfErr, pure, Except.pure]
+  | all b =>
+    unfold choose_duals chooseDuals dualsArg
+    cases b <;> simp [PyArg.isStr, PyArg.isNone, PyArg.isBool, PyArg.scalar, pyRepeat, excOfErr, pure, Except.pure]
+  | seq l =>
+    unfold choose_duals chooseDuals dualsArg
+    by_cases h : l.length = ndim
+    · simp [PyArg.isStr, PyArg.isNone, PyArg.isBool, PyArg.asSeq, pyLen, excOfErr, pure, Except.pure, h]
+    · simp [PyArg.isStr, PyArg.isNone, PyArg.isBool, PyArg.asSeq, pyLen, excOfErr, throw, throwThe,
+        MonadExceptOf.throw, h]
+      omega
+
+example : choose_duals (.str "equal") 3 = .ok [some false, some true, some true] := by rfl
+example : choose_duals (.seq [some true]) 2 = .error (.raised "ValueError") := by rfl
 
 end SymmModel.Gen
